@@ -77,8 +77,9 @@ NoPanic == IsF => ~ev.panic
 HarnessRange == IsF => ~ev.overflow
 
 (* C17: what was really transferred within one window stays within the limits *)
-C17_ClientLimit == (IsF /\ ev.got > 0) => Get(poured, ev.c, 0) <= ev.periodic
-C17_GlobalLimit == (IsF /\ ev.got > 0) => gpoured <= ev.global
+\* (events that bin/vcheck marked as instances of a listed known finding are consumed and summed, not judged)
+C17_ClientLimit == (IsF /\ ev.got > 0 /\ ~IsKnown(ev)) => Get(poured, ev.c, 0) <= ev.periodic
+C17_GlobalLimit == (IsF /\ ev.got > 0 /\ ~IsKnown(ev)) => gpoured <= ev.global
 C17_Balance     == (IsF /\ ev.got > 0) => ev.got <= ev.fbal_pre
 C17_Window      == ~early.u /\ ~early.g
 =============================================================================
